@@ -166,8 +166,19 @@ def worker(args):
             elif r < 0.9:
                 # two or three calendars back to back, as a client reusing its connection sends them
                 parts = [calgen.gen_calendar(rng, nev=rng.choice([1, 2]), opts=GEN)[0] for _ in range(rng.choice([2, 2, 3]))]
+                # ... any of which may carry a METHOD, including those the daemon has no use for
+                for i in range(len(parts)):
+                    if rng.random() < 0.5:
+                        meth = rng.choice([b"PUBLISH", b"REQUEST", b"REPLY", b"ADD", b"CANCEL", b"REFRESH", b"COUNTER", b"DECLINECOUNTER"])
+                        parts[i] = parts[i].replace(b"VERSION:2.0", b"VERSION:2.0\nMETHOD:" + meth, 1)
+                        if meth == b"REPLY" and rng.random() < 0.6:
+                            parts[i] = parts[i].replace(b"END:VEVENT", b"REQUEST-STATUS:" + rng.choice([b"2.0;Success", b"5.1;Fail", b"3.1;Hm"]) + b"\nEND:VEVENT")
                 data = rng.choice([b"", b"\n", b"\r\n"]).join(parts)
                 stratum = "multi-calendar"
+                if rng.random() < 0.25:
+                    # something in front of the first BEGIN: a byte order mark, blank lines, a stray line
+                    data = rng.choice([b"\xef\xbb\xbf", b"\xef\xbb\xbf\r\n", b"\n\n", b" ", b"\xef\xbb", b"\xef", b"X-STRAY:line\n", b"\xff\xfe"]) + data
+                    stratum = "preamble"
             else:
                 # cancel / reply methods
                 d1, m = calgen.gen_calendar(rng, nev=rng.choice([1, 3]), opts=GEN)
